@@ -361,8 +361,10 @@ def check_spans(case) -> Outcome:
         raw = s[a : b + 1]
         quoted = s[a] in "`{" or (t.kind.value == "operator" and s[a] == "%")
         if quoted:
-            if t.token not in s[a : b + 2]:
-                out.fail("span-contains-quoted-text", f"{s!r}: token {t.token!r} span text {s[a:b+2]!r}")
+            # a quoted token's span runs from its opening quote to its last content character
+            close = {"`": "`", "{": "}", "%": "%"}[s[a]]
+            if s[a + 1 : b + 1] != t.token or s[b + 1 : b + 2] != close:
+                out.fail("span-contains-quoted-text", f"{s!r}: token {t.token!r} span {(a, b)} text {s[a:b+2]!r}")
         else:
             if "".join(raw.split()) != "".join(t.token.split()):
                 out.fail("span-delimits-text", f"{s!r}: token {t.token!r} ({t.kind.value}) span text {raw!r}")
@@ -374,7 +376,12 @@ def check_spans(case) -> Outcome:
 def gen_spans():
     from .C14 import gen_alpha, gen_mutated, gen_pyfrag
 
-    return st.one_of(gen_alpha(), gen_mutated(), gen_pyfrag(), st.builds(lambda t, ws: {"s": wsjoin(G.tokens_structured(t), ws)}, G.structured(max_leaves=6), st.lists(st.integers(0, 11), max_size=5)))
+    # quoted tokens whose content holds escaped characters (also as the last character before the closing quote)
+    piece = st.sampled_from(["a", "b c", "\\h", "\\`", "\\}", "\\%", "\\\\", "x", "1", "+", " "])
+    body = st.lists(piece, min_size=1, max_size=4).map("".join)
+    quoted = st.one_of(body.map(lambda b_: "`" + b_ + "`"), body.map(lambda b_: "{" + b_ + "}"), body.map(lambda b_: "a %" + b_.replace(" ", "") + "% b"))
+    escaped = st.lists(st.one_of(quoted, st.sampled_from(["a", "x1", "f(a)"])), min_size=1, max_size=3).map(lambda ps: {"s": " + ".join(ps)})
+    return st.one_of(escaped, gen_alpha(), gen_mutated(), gen_pyfrag(), st.builds(lambda t, ws: {"s": wsjoin(G.tokens_structured(t), ws)}, G.structured(max_leaves=6), st.lists(st.integers(0, 11), max_size=5)))
 
 
 def gen_respace():
